@@ -386,7 +386,7 @@ def parse_query_string(query_string, keep_blank_values=True, encoding='utf-8'):
     returned as {'key': [val1, val2, ...]}. Single key/values will
     be returned as strings: {'key': 'value'}.
     """
-    if image_map_pattern.match(query_string):
+    if image_map_pattern.fullmatch(query_string):
         # Server-side image map. Map the coords to 'x' and 'y'
         # (like CGI::Request does).
         pm = query_string.split(',')
